@@ -1,3 +1,4 @@
+import RallyModel.Alloc
 /-
 One client's `AsyncExecutor` run on a virtual clock (C04, C05).
 
@@ -21,7 +22,7 @@ Inputs: task parameters + one `Req` per request the parameter source can deliver
 parameter generation, the client-side work before/after the wire request and the wire request take,
 what the runner returns or raises, what `random.expovariate` would return, and what the
 runner / parameter source report as progress.
-Import-free apart from `RallyModel.Dbl` (not needed here).
+Imports only `RallyModel.Alloc` (C02's model of the allocation matrix: where a client's `TaskAllocation` comes from).
 -/
 namespace Exec
 
@@ -749,5 +750,78 @@ def runClient (c : Cfg) (t : TaskP) (tt ti : PVal) (globalIdx total : Nat) (srcI
         let completeSet := c.completesParent || c.anyCompletesParent || isSet (c.completeAt.map (· + 1)) o.wire.length
         .ok { out := o, samples := drain queueCap (o.recs.map (·.sample)), completeSet := completeSet,
               rampWait := wait, loop0 := loop }
+
+/-! ## a `Task` object between loading and scheduling
+
+`Task.params` is mutable and `Task.target_throughput` is a property that parses the parameters *each time it
+is read*.  Between loading and scheduling the same object is read (logging, validation, `run_unthrottled`,
+test mode) and rewritten (track processors, `--test-mode`).  The schedule is a function of the parameters
+at schedule time. -/
+
+structure TaskObj where
+  t : TaskP
+  tt : PVal          -- params.get("target-throughput")
+  ti : PVal          -- params.get("target-interval")
+deriving Repr
+
+inductive TaskOp
+  | readThroughput             -- anything that evaluates `task.target_throughput`
+  | setThroughput (v : PVal)   -- `task.params["target-throughput"] = v` (`none`: pop)
+  | setInterval (v : PVal)     -- `task.params["target-interval"] = v` (`none`: pop)
+  | testMode                   -- `loader.TestModeTrackProcessor.on_after_load_track` for this leaf task
+deriving Repr
+
+/-- `str(sys.maxsize)` on a 64-bit platform -/
+def maxsizeStr : Str := ['9', '2', '2', '3', '3', '7', '2', '0', '3', '6', '8', '5', '4', '7', '7', '5', '8', '0', '7']
+
+/-- the leaf-task part of `TestModeTrackProcessor.on_after_load_track` -/
+def testModeLeaf (r : Rat → Rat) (o : TaskObj) : Except Err TaskObj :=
+  let t := o.t
+  let t1 : TaskP :=
+    { t with
+      warmupIt := t.warmupIt.map (fun n => if n > t.clients then t.clients else n)
+      iters := t.iters.map (fun n => if n > t.clients then t.clients else n)
+      warmupT := t.warmupT.map (fun x => if x > 0 then 0 else x)
+      period := t.period.map (fun x => if x > 10 then 10 else x) }
+  -- `if leaf_task.target_throughput:` … `params["target-throughput"] = f"{sys.maxsize} {original_throughput.unit}"`
+  match targetThroughput r o.tt o.ti with
+  | .error e => .error e
+  | .ok none => .ok { o with t := t1 }
+  | .ok (some tp) => .ok { t := t1, tt := .str (maxsizeStr ++ [' '] ++ tp.unit), ti := .none }
+
+def applyOp (r : Rat → Rat) (o : TaskObj) : TaskOp → Except Err TaskObj
+  | .readThroughput =>
+    match targetThroughput r o.tt o.ti with
+    | .error e => .error e
+    | .ok _ => .ok o
+  | .setThroughput v => .ok { o with tt := v }
+  | .setInterval v => .ok { o with ti := v }
+  | .testMode => testModeLeaf r o
+
+def applyOps (r : Rat → Rat) : List TaskOp → TaskObj → Except Err TaskObj
+  | [], o => .ok o
+  | op :: ops, o =>
+    match applyOp r o op with
+    | .error e => .error e
+    | .ok o' => applyOps r ops o'
+
+/-- everything that happens to the Task object, then `schedule_for` + the executor on what the object says *then* -/
+def runClientOps (c : Cfg) (ops : List TaskOp) (t : TaskP) (tt ti : PVal) (globalIdx total : Nat) (srcInfinite : Bool)
+    (queueCap : Nat) (reqs : List Req) : Except Err Final :=
+  match applyOps c.r ops ⟨t, tt, ti⟩ with
+  | .error e => .error e
+  | .ok o => runClient c o.t o.tt o.ti globalIdx total srcInfinite queueCap reqs
+
+/-! ## from the allocation matrix to a client's `TaskAllocation` -/
+
+/-- `(task.clients, client_index_in_task, global_client_index, total_clients)` of a matrix entry -/
+def allocClient : Alloc.Entry → Option (Nat × Nat × Nat × Nat)
+  | .task sub i g total => some (sub.clients, i, g, total)
+  | _ => none
+
+/-- entry `pos` of row `row` of `Allocator(schedule).allocations` -/
+def pickEntry (s : List Alloc.Element) (row pos : Nat) : Option Alloc.Entry :=
+  ((Alloc.allocations s)[row]?).bind (fun r => r[pos]?)
+
 
 end Exec
